@@ -194,6 +194,7 @@ def run(ctx):
         chain = chain_back(a, n_)
         inc = False
         from_mbar = False
+        delivered = []
         for cn in chain:
             for ev in a.events.get(cn, []):
                 if ev[0] == 'write' and ev[1] == ('e', ('m', 'deliver_s'), '*') and T.node(ev[2])[0] == 'add' and any(T.is_int(z, 1) for z in T.node(ev[2])[1:]):
@@ -202,6 +203,7 @@ def run(ctx):
                     cur = a.read(('e', ('m', 'mbar'), '*'), a.instate[cn])
                     if ev[2] == cur or 'mbar' in T.show(ev[2], 4):
                         from_mbar = True
+                    delivered.append(ev[2])
         (ctx.ok if inc else ctx.bad)('R14e', key0 + ':advance', 'the expected sequence number advances with the delivery' if inc else
                                      'delivery does not advance the sender\'s sequence number (the slot could be delivered twice)', f, line=n_.line)
         # integrity
@@ -213,8 +215,17 @@ def run(ctx):
             integ = integ and thr
             what = 'digest of the stored payload equals the agreed digest and 2t+1 readys were counted'
         elif h == 'r_answer':
-            integ = any(T.node(fa)[0] == 'rel' and T.node(fa)[1] == '==' and 'dbar' in T.show(fa, 4) and T.contains(fa, lambda z: z[0] == 'hash') for fa in st.facts)
-            what = 'digest of the answered payload equals the agreed digest'
+            # the value handed out must be the very value whose digest was compared (not a cached one)
+            def hashed_values(fa):
+                out = []
+                for x in T.subterms(fa):
+                    if T.node(x)[0] == 'hash':
+                        out.extend(T.subterms(x))
+                return out
+            integ = bool(delivered) and all(any(T.node(fa)[0] == 'rel' and T.node(fa)[1] == '==' and 'dbar' in T.show(fa, 4) and
+                                                a.strip_ix(v, a.ix_loops(v)) in hashed_values(fa) for fa in st.facts) for v in delivered)
+            from_mbar = True       # on this path the stored payload and the answered one must coincide, which is what integ now checks
+            what = 'the value handed out is the answered payload whose digest equals the agreed digest'
         elif h == 'l_deliver':
             integ = sum(1 for fa in st.facts if T.node(fa)[0] == 'rel' and T.node(fa)[1] == '<=' and named(T, thr_poly(T, T.node(fa)[2]) or {}) == 'n-t') >= 2
             what = 'n-t deliver messages and n-t agreeing retrieved answers'
